@@ -1,9 +1,9 @@
 SPECIFICATION FairSpec
 CONSTANTS
-  Script <- Script2
+  Script <- ScriptQ
   Thresh = 1
-  SatInit = FALSE
-  MaxLow = 1
+  SatInit = TRUE
+  MaxLow = 256
 INVARIANTS ExecAtMostOnce ExecOnlyAccepted NoLostWakeup HighPrioFIFO EdgeImpliesFlag CountersLag ShutdownIsFinal FlagMeansWake ClearMeansSeen
 PROPERTIES EventuallyAllRun
 CHECK_DEADLOCK FALSE
